@@ -76,7 +76,10 @@ def sites(fn):
         if isinstance(n, ast.Expr) and isinstance(n.value, ast.Call):
             out.append(("drop-stmt", i))
         if isinstance(n, (ast.Assign, ast.AugAssign)) and not isinstance(getattr(n, "value", None), ast.Constant):
-            out.append(("drop-assign", i))
+            tg = n.targets[0] if isinstance(n, ast.Assign) else n.target
+            # dropping the only binding of a plain local just raises NameError (caught by any test): not interesting
+            if isinstance(tg, (ast.Attribute, ast.Subscript)) or isinstance(n, ast.AugAssign):
+                out.append(("drop-assign", i))
         if isinstance(n, ast.Subscript) and isinstance(n.slice, ast.Constant) and isinstance(n.slice.value, int):
             pass
         if isinstance(n, ast.Attribute) and n.attr in ("real", "imag"):
